@@ -402,6 +402,9 @@ class ModuleVistor(NodeVisitor):
             elif ob.parent is None:
                 # A root module or package is documented on its own, there is nothing it could be moved out of.
                 current.report(f"cannot re-export the root object {ob.fullName()!r}", thresh=1)
+            elif isinstance(ob, model.Module) and not isinstance(current, model.Package):
+                # Modules live in packages only: a plain module cannot become the parent of another module.
+                current.report(f"cannot move the module {ob.fullName()!r} into a module that is not a package", thresh=1)
             else:
                 if origin_module.all is None or origin_name not in origin_module.all:
                     self.system.msg(
